@@ -3,12 +3,11 @@
 // that already existed (stability), and the appended node gets the type and denotation of its operator (no admit).
 // ======================================================================================
 
-/// the table of `new` starts with the table of `old`, interned literals keep their value, the cached constants are the same
+/// the table of `new` starts with the table of `old`, interned literals keep their value
 pub open spec fn grows(old: &Context, new: &Context) -> bool {
     &&& old.exprs@.len() <= new.exprs@.len() <= u32::MAX
     &&& forall|i: int| 0 <= i < old.exprs@.len() ==> #[trigger] new.exprs@[i] == old.exprs@[i]
     &&& new.values.extends(&old.values)
-    &&& new.true_expr_ref == old.true_expr_ref && new.false_expr_ref == old.false_expr_ref
 }
 
 /// children of every old node are older than the node (part of node_ok, restated so that it can be used before wf is unfolded)
@@ -39,7 +38,7 @@ pub proof fn lemma_kids_cover(n: Expr)
 
 pub proof fn lemma_extends(old: &Context, new: &Context)
     requires grows(old, new), old_kids_older(old), old_lits_interned(old),
-    ensures new.extends(old),
+    ensures new.frame(old),
 {
     assert forall|r: ExprRef| #[trigger] old.has(r) implies new.has(r) && new.nodes()[r] == old.nodes()[r]
         && new.den(r) == old.den(r) && new.ty(r) == old.ty(r) by {
@@ -49,7 +48,7 @@ pub proof fn lemma_extends(old: &Context, new: &Context)
 
 /// wf gives the two restated facts
 pub proof fn lemma_wf_basics(c: &Context)
-    requires c.wf(),
+    requires c.wf_core(),
     ensures old_kids_older(c), old_lits_interned(c),
 {
     reveal(Context::all_nodes_ok);
@@ -64,9 +63,10 @@ pub proof fn lemma_wf_basics(c: &Context)
 
 /// growing a well-formed context keeps it well-formed, provided the appended nodes are ok
 pub proof fn lemma_grow_wf(old: &Context, new: &Context)
-    requires old.wf(), grows(old, new), new.rep(),
+    requires old.wf_core(), grows(old, new), new.rep(),
              forall|r: ExprRef| #[trigger] new.has(r) && !old.has(r) ==> new.node_ok(r),
-    ensures new.wf(), new.extends(old),
+    ensures new.wf_core(), new.frame(old),
+            (new.true_expr_ref == old.true_expr_ref && new.false_expr_ref == old.false_expr_ref) ==> new.extends(old) && (old.consts_ok() ==> new.consts_ok()),
 {
     lemma_wf_basics(old);
     lemma_extends(old, new);
@@ -93,7 +93,7 @@ pub proof fn lemma_grow_wf(old: &Context, new: &Context)
 
 /// the whole proof obligation of `add_expr` after the table insert: either the node was present (nothing changed) or it was appended
 pub proof fn lemma_add_expr(old: &Context, new: &Context, value: Expr, index: usize, fresh: bool)
-    requires old.wf(), old.node_typed(value), new.exprs.inv(), new.strings == old.strings, new.values == old.values,
+    requires old.wf_core(), old.node_typed(value), new.exprs.inv(), new.strings == old.strings, new.values == old.values,
              new.true_expr_ref == old.true_expr_ref, new.false_expr_ref == old.false_expr_ref,
              old.exprs@.contains(value) ==> new.exprs@ == old.exprs@ && index < old.exprs@.len() && old.exprs@[index as int] == value,
              !old.exprs@.contains(value) ==> new.exprs@ == old.exprs@.push(value) && index == old.exprs@.len(),
@@ -125,9 +125,9 @@ pub proof fn lemma_add_expr(old: &Context, new: &Context, value: Expr, index: us
 
 /// interning a value only extends the interner: the expression table is untouched and the context stays well-formed
 pub proof fn lemma_values_grow(old: &Context, new: &Context)
-    requires old.wf(), new.exprs == old.exprs, new.strings == old.strings, new.values.inv(), new.values.extends(&old.values),
+    requires old.wf_core(), new.exprs == old.exprs, new.strings == old.strings, new.values.inv(), new.values.extends(&old.values),
              new.true_expr_ref == old.true_expr_ref, new.false_expr_ref == old.false_expr_ref,
-    ensures new.wf(), new.extends(old),
+    ensures new.wf_core(), new.extends(old), old.consts_ok() ==> new.consts_ok(),
 {
     old.lemma_nodes(); new.lemma_nodes();
     old.exprs.ax_table_bound();
